@@ -215,8 +215,13 @@ class CallMixin:
                 vals[pname] = self.coerce(rest.d[pname], pty)
             elif pname in con.defaults:
                 vals[pname] = con.defaults[pname]
+            elif pname in con.ghost.get("ghost_args", {}):
+                pass      # bound below from the actual arguments
             else:
                 raise Unsupported(f"contract parameter {pname} of {con.target} not bound at call site")
+        for pname, fn in con.ghost.get("ghost_args", {}).items():
+            if pname not in vals:
+                vals[pname] = self.coerce(fn(Ctx(self, st, st), **vals), con.params[pname])
         old = st.copy()
         cx = Ctx(self, st, old)
         for label, fn in con.requires:
